@@ -251,3 +251,64 @@ def po_roundtrip(S):
     g0, g1 = V3CoreLib.get_token_amounts(pool, pos, sp, liq)
     S.check("get_token_amounts0==deposit0", S.eq(g0, u0))
     S.check("get_token_amounts1==deposit1", S.eq(g1, u1))
+
+
+# ------------------------------------------------------------------------------------------------ supplementary (not part of the U claim)
+def _uni_contracts_for_c07():
+    from .c14 import get_amounts_contract, sqrt_of_price_contract
+    import demeter.uniswap.core as core
+    import demeter.uniswap.market as umarket
+    from .c04 import get_liquidity_contract
+    return {core.get_amounts: get_amounts_contract, core.get_liquidity: get_liquidity_contract, umarket.base_unit_price_to_sqrt_price_x96: sqrt_of_price_contract}
+
+
+@proof("C07", "supplementary/callee-contract-of-get_sqrt_ratio_at_tick:spot-check-around-parity-and-at-the-extremes", strength="X",
+       shapes=[{"lo": -2048, "hi": 2048}, {"lo": -887272, "hi": -887272 + 256}, {"lo": 887272 - 256, "hi": 887272}],
+       note="the U obligations of this file use get_sqrt_ratio_at_tick through its contract, whose own obligations (all 1,774,545 ticks) are C06's; "
+            "this spot check re-evaluates the real function on the ticks where a range boundary or a pool price most plausibly sits exactly ON a tick — "
+            "around parity (tick 0, f = 2^96) and at both ends — with C06's oracle, so that a change of the tick function shows up under C07 as well")
+def x_tick_spot_check(ctx):
+    from .c06 import _oracle, _check_tick
+    mpmath, base = _oracle()
+    out = {k: {"instances": 0, "failures": [], "undecided": 0} for k in
+           ("closeness-to-sqrt(1.0001^t)*2^96", "range[MIN_SQRT,MAX_SQRT]", "strictly-increasing", "boundary-values")}
+    if ctx.get("replay"):
+        t = int(ctx["replay"]["tick"])
+        _check_tick(t, mpmath, base, out, lm.get_sqrt_ratio_at_tick(t - 1) if t > MIN_TICK else None)
+        return out
+    lo, hi = ctx["shape"]["lo"], ctx["shape"]["hi"]
+    prev = lm.get_sqrt_ratio_at_tick(lo - 1) if lo > MIN_TICK else None
+    for t in range(lo, hi + 1):
+        prev = _check_tick(t, mpmath, base, out, prev)
+        for c in out.values():
+            del c["failures"][5:]
+    return out
+
+
+@proof("C07", "supplementary/market:add-and-remove-use-the-CURRENT-status-price(also-after-a-re-pricing-with-the-same-timestamp)", strength="S",
+       shapes={"quick": [{"q0": True}, {"q0": False}], "thorough": [{"q0": True}, {"q0": False}]}, contracts=_uni_contracts_for_c07())
+def po_market_current_price(S):
+    """UniLpMarket._add_liquidity_by_tick / remove_liquidity derive the sqrt price from the status price in force when they are called:
+       after an operation at one price and a new status (same timestamp, as when a market is driven by hand) removal pays the amounts of
+       the position at the NEW price — get_amounts / the price conversion enter as uninterpreted functions (contracts of C06 / this file)."""
+    from .worlds import uni_world, uni_at_bar, series, T0
+    from demeter.uniswap import UniswapMarketStatus
+    from demeter.uniswap import helper as uh
+    from .common import REJECT
+    w = uni_at_bar(uni_world(S, 6, 18, S.shape["q0"], 1, 0.05))
+    m = w.market
+    try:
+        m.add_liquidity_by_tick(-600, 600, S.dec("base_max", 0, 10 ** 9), S.dec("quote_max", 0, 10 ** 9), -1, -1, False)     # fills whatever is memoised per bar
+    except REJECT:
+        pass
+    row2 = dict(w.rows[T0])
+    row2["price"] = S.dec("re_priced", 0, None, lo_strict=True)
+    m.set_market_status(UniswapMarketStatus(T0, series(row2)), m._price_status)
+    key = w.pos_keys[0]
+    L = m._positions[key].liquidity
+    s2 = uh.base_unit_price_to_sqrt_price_x96(row2["price"], w.pool.token0.decimal, w.pool.token1.decimal, w.pool.is_token0_quote)
+    e0, e1 = V3CoreLib.get_token_amounts(w.pool, key, s2, L)
+    p0, p1 = m._positions[key].pending_amount0, m._positions[key].pending_amount1
+    m.remove_liquidity(key, None, False)
+    S.check("removal-pays-the-position's-amounts-at-the-current-price:token0", S.eq(m._positions[key].pending_amount0, p0 + e0))
+    S.check("removal-pays-the-position's-amounts-at-the-current-price:token1", S.eq(m._positions[key].pending_amount1, p1 + e1))
